@@ -792,6 +792,8 @@ func (env *SpecEnv) evalQuant(e *Expr) TV {
 		env.fc.boundNames = append(env.fc.boundNames, name)
 	}
 	defer func(k int) { env.fc.boundNames = env.fc.boundNames[:k] }(len(env.fc.boundNames) - len(e.Vars))
+	env.fc.smt.inQuant++
+	defer func() { env.fc.smt.inQuant-- }()
 	body := n.evalBool(e.X[0])
 	if len(e.Trig) > 0 {
 		var pats []string
